@@ -62,23 +62,23 @@ pub fn run(id: &str, tier: Tier) -> i32 {
 
 fn run_check(id: &str, tier: Tier) -> Option<Run> {
     let run = match id {
-        "C01" => { let r = Run::new("C01", tier); guarded(&r, || c01::run(&r)); r }
-        "C02" => { let r = Run::new("C02", tier); guarded(&r, || c02::run(&r)); r }
-        "C03" => { let r = Run::new("C03", tier); guarded(&r, || c03::run(&r)); r }
+        "C01" => { let r = Run::new("C01", tier); start_watchdog("C01"); guarded(&r, || c01::run(&r)); r }
+        "C02" => { let r = Run::new("C02", tier); start_watchdog("C02"); guarded(&r, || c02::run(&r)); r }
+        "C03" => { let r = Run::new("C03", tier); start_watchdog("C03"); guarded(&r, || c03::run(&r)); r }
         "C04" => { let r = Run::new("C04", tier); start_watchdog("C04"); guarded(&r, || c04::run(&r)); r }
         "C05" => { let r = Run::new("C05", tier); start_watchdog("C05"); guarded(&r, || c05::run(&r)); r }
-        "C06" => { let r = Run::new("C06", tier); guarded(&r, || c06::run(&r)); r }
-        "C07" => { let r = Run::new("C07", tier); guarded(&r, || c07::run(&r)); r }
-        "C08" => { let r = Run::new("C08", tier); guarded(&r, || c08::run(&r)); r }
-        "C09" => { let r = Run::new("C09", tier); guarded(&r, || c09::run(&r)); r }
-        "C10" => { let r = Run::new("C10", tier); guarded(&r, || c10::run(&r)); r }
+        "C06" => { let r = Run::new("C06", tier); start_watchdog("C06"); guarded(&r, || c06::run(&r)); r }
+        "C07" => { let r = Run::new("C07", tier); start_watchdog("C07"); guarded(&r, || c07::run(&r)); r }
+        "C08" => { let r = Run::new("C08", tier); start_watchdog("C08"); guarded(&r, || c08::run(&r)); r }
+        "C09" => { let r = Run::new("C09", tier); start_watchdog("C09"); guarded(&r, || c09::run(&r)); r }
+        "C10" => { let r = Run::new("C10", tier); start_watchdog("C10"); guarded(&r, || c10::run(&r)); r }
         "C11" => { let r = Run::new("C11", tier); start_watchdog("C11"); guarded(&r, || c11::run(&r)); r }
         "C12" => { let r = Run::new("C12", tier); start_watchdog("C12"); guarded(&r, || c12::run(&r)); r }
-        "C13" => { let r = Run::new("C13", tier); guarded(&r, || c13::run(&r)); r }
-        "C14" => { let r = Run::new("C14", tier); guarded(&r, || c14::run(&r)); r }
-        "C15" => { let r = Run::new("C15", tier); guarded(&r, || c15::run(&r)); r }
-        "C16" => { let r = Run::new("C16", tier); guarded(&r, || c16::run(&r)); r }
-        "C17" => { let r = Run::new("C17", tier); guarded(&r, || c17::run(&r)); r }
+        "C13" => { let r = Run::new("C13", tier); start_watchdog("C13"); guarded(&r, || c13::run(&r)); r }
+        "C14" => { let r = Run::new("C14", tier); start_watchdog("C14"); guarded(&r, || c14::run(&r)); r }
+        "C15" => { let r = Run::new("C15", tier); start_watchdog("C15"); guarded(&r, || c15::run(&r)); r }
+        "C16" => { let r = Run::new("C16", tier); start_watchdog("C16"); guarded(&r, || c16::run(&r)); r }
+        "C17" => { let r = Run::new("C17", tier); start_watchdog("C17"); guarded(&r, || c17::run(&r)); r }
         _ => {
             eprintln!("unknown property id {id}");
             return None;
